@@ -72,6 +72,9 @@ def other_fs_tmp(workdir):
     return os.path.join(workdir, "tmp")
 
 
+HARDLINK = False        # set per case by the crash / fault checks: the database file gets a second hard link after the history, before the operation
+
+
 class Session:
     """a database in a private directory with proxies installed; runs histories and one observed op"""
 
@@ -93,7 +96,17 @@ class Session:
         self.driver = dbimpl.Driver(tf, True, auto, self.dbdir, self.kw)
 
     def run(self, ops):
-        return [self.driver.do(o) for o in ops]
+        outs = [self.driver.do(o) for o in ops]
+        if HARDLINK and not getattr(self, "linked", False) and os.path.exists(self.path):
+            # the user keeps a hard-linked snapshot of the database file (cp -l): the file now has two names; whatever the library does
+            # for linked files must be as safe as what it does otherwise
+            self.linked = True
+            try:
+                os.makedirs(os.path.join(self.dir, "links"), exist_ok=True)
+                os.link(self.path, os.path.join(self.dir, "links", "db.snapshot"))
+            except OSError:
+                pass
+        return outs
 
     def contents(self):
         return decode_bytes(read_file(self.path), self.kw.get("encoding"), {k: v for k, v in self.kw.items()
@@ -309,15 +322,20 @@ def io_cases(seed, n, kinds=None):
         n0 = r.choice([1, 2, 3, 5, 8])
         if kinds[i % len(kinds)] in ("update_shrink", "remove_most", "remove_some"):
             auto, n0 = True, max(n0, 3)          # the index must answer the query: storage-level shortcuts hang off that path
-        pts = g.points_batch(n0, in_order=r.random() < 0.7)
+        big = kinds[i % len(kinds)] == "update_newest_big"
+        if big:
+            auto, n0 = True, r.choice([130, 131, 140])      # a database past 128 rows, index valid
+        pts = g.points_batch(n0, in_order=True if big else r.random() < 0.7)
         hist = [("insert", pts, None, "multiple")]
-        for _ in range(r.choice([0, 1, 2])):
+        for _ in range(0 if big else r.choice([0, 1, 2])):
             hist.append(r.choice([g.read_op(), ("get", g.query(), None), ("remove", g.query(), g.mfilter()), ("insert", [g.point()], None)]))
         kind = kinds[i % len(kinds)]
         ns = sorted(p["fields"]["n"] for p in pts if "n" in p["fields"])       # the selective ids actually stored by the first batch
         j = r.choice(ns) if ns else 1
         one = ("S", "tags", [("k", "id")], ("cmp", "==", ("s", str(j))))
-        if i % 4 == 1:
+        if big:
+            pass
+        elif i % 4 == 1:
             # the previous operations may leave rows that are logically stored but (if the library is wrong) not yet in the file
             bad = [g.point(), g.point()]
             bad.insert(r.randrange(1, 3), None)
@@ -355,6 +373,9 @@ def io_cases(seed, n, kinds=None):
             # the LAST stored points become shorter rows (keys unset, short values): a rewrite that reuses the old file would leave a tail behind
             op = ("update", ("S", "fields", [("k", "n")], ("cmp", ">=", ("n", ns[len(ns) // 2] if len(ns) >= 2 else 1))),
                   {"unset_tags": ["a", "b", "k", "id"], "unset_fields": ["a", "b"], "fields": ("static", {"n": 1})}, None)
+        elif kind == "update_newest_big":
+            # the NEWEST few rows of a database of more than 128 rows get a new field value (amending the latest readings)
+            op = ("update", ("S", "time", [], ("cmp", ">=", ("t", pts[-3]["time"]))), {"fields": ("static", {"amended": 1})}, None)
         elif kind == "remove_most":
             # more than half of the points go, a few stay (retention-style delete): the survivors are the minority
             op = ("remove", ("S", "fields", [("k", "n")], ("cmp", ">=", ("n", ns[1] if len(ns) >= 3 else 1))), None)
